@@ -348,6 +348,13 @@ Definition stat_ok (ls : list statline) : bool :=
   forallb statline_ok ls && Nat.eqb (count_kind is_ctxt ls) 1 && Nat.eqb (count_kind is_intr ls) 1
   && Nat.eqb (count_kind is_softirq ls) 1.
 
+(* the counters of intr / softirq lines are followed by nothing or by " n n n ..." *)
+Definition sp_or_nil (r : bytes) : bool := match r with [] => true | c :: _ => c =? 32 end.
+Definition sl_ok (l : statline) : bool :=
+  statline_ok l && match l with SIntr _ r | SSoftirq _ r => sp_or_nil r | _ => true end.
+Definition is_btime l := match l with SBtime _ => true | _ => false end.
+Definition stat_ok' (ls : list statline) : bool := forallb sl_ok ls && stat_ok ls.
+
 (* number of per-CPU lines "cpuN ..." *)
 Definition n_cpu_lines (ls : list statline) : Z :=
   fold_right (fun l a => match l with SCpu (_ :: _) _ => a + 1 | _ => a end) 0 ls.
